@@ -3,6 +3,7 @@ public API where one exists and through PhQ::Internal table names (with find(), 
 unchecked lookups) otherwise.  Output: NDJSON on stdout (UTF-8)."""
 
 PRE = r'''
+#include <cmath>
 #include <cstdio>
 #include <cstring>
 #include <cstdint>
@@ -50,7 +51,8 @@ template<class U, class T> static void keys(const char* k, const NameTab<U>& x){
   printf(",\"to_%%s\":%%s,\"from_%%s\":%%s", k, Internal::MapOfConversionsToStandard<U,T>.count(x.v)?"true":"false", k, Internal::MapOfConversionsFromStandard<U,T>.count(x.v)?"true":"false"); }
 // the run-time dispatch tables map every enumerator to ITS OWN conversion routine: converting through the table (public Convert) and calling
 // Internal::Conversion<U, u> directly must agree bit for bit, in both directions and all three numeric types
-template<class T> static bool sameb(T a, T b){ return std::memcmp(&a,&b, sizeof(T)>10? 10 : sizeof(T))==0; }
+// equal, or neighbouring representable numbers (a table entry may be a differently written but equivalent routine; another unit's routine is far away)
+template<class T> static bool sameb(T a, T b){ if(std::memcmp(&a,&b, sizeof(T)>10? 10 : sizeof(T))==0) return true; return a==b || a==std::nextafter(b,(T)INFINITY) || a==std::nextafter(b,-(T)INFINITY); }
 template<class U, U u, class T> static void disp_one(bool& to_ok, bool& from_ok){
   if(!Internal::MapOfConversionsToStandard<U,T>.count(u) || !Internal::MapOfConversionsFromStandard<U,T>.count(u)){ to_ok=false; from_ok=false; return; }
   const T probes[4] = {(T)1, (T)-2.5L, (T)1000.125L, (T)0.3L};
